@@ -21,9 +21,11 @@ LEVEL = 'exploration'
 SHARDS = {'quick': 4, 'thorough': 16}
 BUDGET_S = {'quick': 150, 'thorough': 400}
 RULE = ('texts over letters, digits (so " 28" and " 29" occur), spaces and the eight line-break forms at all '
-        'positions (start, end, doubled) for iter_splitlines; file contents (empty, one line +- trailing newline, '
+        'positions (start, end, doubled) for iter_splitlines, plus texts of 66k-1.1M characters with a break form straddling '
+        'every power-of-two offset; file contents (empty, one line +- trailing newline, '
         'leading blank lines, multi-byte characters, \\r\\n straddling every block edge) read backwards with every '
-        'blocksize 1..len+2 as BytesIO / real binary file / real text-mode file; JSON Lines files with blank and '
+        'blocksize 1..len+2 as BytesIO / real binary file / real text-mode file / update-mode handles (w+, a+, r+, w+b) that '
+        'were just written through and not flushed; JSON Lines files with blank and '
         'corrupt lines and sizes around 4096*k; distinct = distinct texts / (content, file kind) pairs / JSONL '
         'layouts with at least two lines')
 ASSUMPTIONS = [
@@ -45,9 +47,36 @@ def anchors():
     return [su.iter_splitlines, ju.reverse_iter_lines, ju.JSONLIterator]
 
 
+def big_text(c):
+    """A text of tens or hundreds of thousands of characters with a chosen break form placed so that it straddles
+    (or sits right before / after) every power-of-two offset - where a windowed implementation would cut."""
+    r = common.rng('C19-big', c['seed'])
+    filler = []
+    n = 0
+    while n < c['size']:
+        w = r.choice(WORDS) + (r.choice(BREAKS) if r.random() < 0.2 else ' ')
+        filler.append(w)
+        n += len(w)
+    chars = list(''.join(filler)[:c['size']])
+    br = c['break']
+    p = 1024
+    while p + 2 < len(chars):
+        at = p + c['shift']       # shift -1: a two-character break straddles offset p
+        chars[at:at + len(br)] = list(br)
+        p *= 2
+    for m in (3, 5, 6, 7):        # and at multiples of 65536 that are not powers of two
+        at = m * 65536 + c['shift']
+        if at + 2 < len(chars):
+            chars[at:at + len(br)] = list(br)
+    return ''.join(chars)
+
+
 def check_split(c, st):
     su = common.load('strutils')
-    t = c['text']
+    t = big_text(c) if c.get('big') else c['text']
+    if c.get('big'):
+        st.peak('max_text_chars', len(t))
+        st.count('split_big_cases')
     want = t.splitlines() + ([''] if any(t.endswith(b) for b in BREAKS) else [])
     got = outcome(lambda: list(su.iter_splitlines(t)))
     st.monitor_evals += 1
@@ -56,7 +85,10 @@ def check_split(c, st):
             'misses-a-break' if got[0] == 'ok' and len(got[1]) < len(want) else 'differs'
         which = sorted(set('U+%04X' % ord(b) for b in BREAKS if len(b) == 1 and b in t))
         return ('iter_splitlines:%s%s' % (cls, (':' + '+'.join(w for w in which if w in ('U+2028', 'U+2029'))) if cls == 'misses-a-break' else ''),
-                'iter_splitlines(%r) = %r, str.splitlines rule gives %r' % (t, got, want))
+                'iter_splitlines(%s) = %s, str.splitlines rule gives %s'
+                % ((repr(t), repr(got), repr(want)) if not c.get('big') else
+                   ('<%d characters, case %r>' % (len(t), c), '%s lines' % (len(got[1]) if got[0] == 'ok' else got,),
+                    '%d lines' % len(want))))
     if len(want) >= 2:
         st.see(('split', t))
     st.count('split_cases')
@@ -113,6 +145,31 @@ def check_rev(c, st):
                         except Exception:
                             st.count('close_after_detach_raised')
                     want = want_bytes
+                elif kind in ('text-file-w+', 'text-file-a+', 'binary-file-w+', 'text-file-r+'):
+                    # the file object was just written through (nothing flushed yet): its lines are its content
+                    half = len(c['content']) // 2
+                    if kind == 'binary-file-w+':
+                        fo = open(path, 'w+b')
+                        fo.write(data)
+                        want = want_bytes
+                    else:
+                        pre = c['content'][:half] if kind != 'text-file-w+' else ''
+                        with open(path, 'wb') as f:
+                            f.write(pre.encode('utf-8'))
+                        fo = open(path, {'text-file-w+': 'w+', 'text-file-a+': 'a+', 'text-file-r+': 'r+'}[kind],
+                                  encoding='utf-8', newline='')
+                        if kind == 'text-file-r+':
+                            fo.seek(0, 2)
+                        fo.write(c['content'][len(pre):])
+                        want = want_text
+                    try:
+                        out = list(ju.reverse_iter_lines(fo, blocksize=bs))
+                    finally:
+                        try:
+                            fo.close()
+                        except Exception:
+                            pass
+                    st.count('reverse_on_just_written_handles')
                 else:
                     with open(path, 'wb') as f:
                         f.write(data)
@@ -257,7 +314,8 @@ def gen(r):
             content = ''.join(ln + (nl if r.random() < 0.8 else r.choice(['\n', '\r\n'])) for ln in lines)
             if r.random() < 0.5:
                 content = content.rstrip('\r\n')
-        kinds = r.choice([['bytesio'], ['bytesio', 'binary-file'], ['bytesio', 'text-file'], ['binary-file', 'text-file']])
+        kinds = r.choice([['bytesio'], ['bytesio', 'binary-file'], ['bytesio', 'text-file'], ['binary-file', 'text-file'],
+                          ['bytesio', r.choice(['text-file-w+', 'text-file-a+', 'binary-file-w+', 'text-file-r+'])]])
         return {'kind': 'rev', 'content': content, 'kinds': kinds}
     # JSON Lines
     target = r.choice([0, 50, 300, 4096 - 40, 4096, 4096 + 40, 8192, 8192 - 3, 12288 + 1, 20000])
@@ -290,6 +348,8 @@ def gen(r):
 
 def shrink(case, fails):
     c = dict(case)
+    if c['kind'] == 'split' and c.get('big'):
+        return c
     if c['kind'] == 'split':
         small = ''.join(ddmin(list(c['text']), lambda t: fails(dict(c, text=''.join(t))), 60))
         if fails(dict(c, text=small)):
@@ -318,6 +378,15 @@ def cleanup():
 
 def run(ctx):
     try:
+        from checks.common.cases import run_case
+        bigs = [{'kind': 'split', 'big': True, 'seed': i, 'size': size, 'break': br, 'shift': shift}
+                for i, (size, br, shift) in enumerate(
+                    [(70000, '\r\n', -1), (140000, '\r\n', -1), (70000, '\n', -1), (70000, '\r\n', 0), (300000, '\r\n', -1),
+                     (70000, '\r', -1), (140000, '\u2028', -1), (66000, '\r\n', -2), (140000, '\x85', 0), (270000, '\r\n', 0),
+                     (70000, '\x0b', -1), (1100000, '\r\n', -1)])]
+        mine = [b for i, b in enumerate(bigs) if i % ctx.nshards == ctx.shard]
+        for b in (mine if ctx.thorough else mine[:2]):
+            run_case(ctx, b, check, 'split-big', None, {})
         explore_cases(ctx, gen, check, {'quick': 2000, 'thorough': 60000}[ctx.tier], 'lines', shrink)
     finally:
         cleanup()
